@@ -263,6 +263,25 @@ def n_tun(secure, auth):
         cover("tunnel-refused")
 
 
+def n_reuse(first_env, second_env):
+    """the SAME (empty) http_no_proxy list object is passed for two decisions while the environment's no_proxy changes in between"""
+    quiet_logging()
+    import os as real_os
+    env = {}
+    lst = []
+    outs = []
+    with _Patch(_is_ip_address=lambda a: False, os=FakeEnv(real_os, env)) as U:
+        for val in (first_env, second_env):
+            env.clear()
+            if val:
+                env["no_proxy"] = val
+            outs.append(U.get_proxy_info("target.example", False, "proxy.example", 3128, None, lst))
+    exp = [(None, 0, None) if (v and "target.example" in v.split(",")) else ("proxy.example", 3128, None) for v in (first_env, second_env)]
+    sx.require(outs == exp, "each decision consults the environment as it is NOW when the option lists nothing", got=str(outs), exp=str(exp))
+    sx.require(lst == [], "the caller's no_proxy list is not modified", got=str(lst))
+    cover("reuse")
+
+
 def obligations(tier):
     thorough = tier == "thorough"
     dom = [dict(hl=h, el=e) for h in range(0, (10 if thorough else 8)) for e in range(0, (8 if thorough else 6))]
@@ -282,6 +301,9 @@ def obligations(tier):
         Obligation("N-info", n_info, [dict(secure=s) for s in (False, True)], bounds="proxy host/port/auth options x {unset, plain, with credentials} for each of "
                    "http_proxy, HTTP_PROXY, https_proxy, HTTPS_PROXY x 4 no_proxy source patterns, ws and wss (full product)",
                    must_cover=["proxied", "direct"], budget_s=1800, kernel=["_url.get_proxy_info", "_is_no_proxy_host"]),
+        Obligation("N-reuse", n_reuse, [dict(first_env=a, second_env=b) for a in ("", "target.example", "other.example") for b in ("", "target.example", "other.example")],
+                   bounds="two successive decisions with one shared empty no_proxy list object and every pair of environment values", must_cover=["reuse"],
+                   kernel=["_url._is_no_proxy_host", "get_proxy_info"]),
         Obligation("N-tun", n_tun, [dict(secure=s, auth=a) for s in (False, True) for a in ("none", "user", "userpass", "long")],
                    bounds="proxy reply status symbolic over 100..599 (3 symbolic digits); no / user / user:password / 109-byte credentials (base64 longer than one MIME line); ws and wss",
                    must_cover=["tunnelled", "tunnel-refused"], step_budget=100000,
